@@ -161,6 +161,19 @@ def run(tier):
             n_loops += 1
             check_feed_loop(ck, fn, counting)
     ck.floor("feeding loops", n_loops, 2)
+    # the two feeding entry points are identified by what they implement; each must be a recognisable feeding loop
+    # (accepted idiom: `for v in iter { [cnt += 1;] if !callback.call(v) { break } }`), otherwise count/stop behaviour is not established
+    for fn in fns:
+        is_feed = fn["name"] == "feed_into_mut" and (fn.get("impl_trait") or "").endswith("callback::FeedCallback")
+        is_ext = fn["name"] == "extend" and fn.get("impl_trait") == "std::iter::Extend" and "OpaqueCallback" in (fn.get("impl_self") or "")
+        if is_feed or is_ext:
+            body = mir.Body(fn)
+            has_loop = any(cp(t) == NEXT and body.in_cycle(i) for i, t in body.calls())
+            direct = [(i, t) for i, t in body.calls() if cp(t) == CALL]
+            ck.ob("L-feed-loop-shape", fn["path"], has_loop and len(direct) >= 1,
+                  "%s (%s) is not a loop over `next()` that calls the callback itself (e.g. it delegates to iterator adapters): the rule cannot establish that every offered "
+                  "item is counted and that feeding stops after the first `false`; accepted idiom: for v in iter { cnt += 1; if !callback.call(v) { break } }" % (fn["path"], fn["span"]),
+                  sample={"fn": fn["path"]})
     # feed_into delegates
     fi = [x for x in fns if x["name"] == "feed_into" and x.get("of_trait")]
     for fn in fi:
